@@ -82,7 +82,14 @@ def effective_maxsize(cfg):
 
 def skey(k):
     """stable printable form of a cache key"""
-    return repr(k)
+    return srepr(k)
+
+
+def srepr(v):
+    try:
+        return repr(v)
+    except Exception as e:
+        return '<unreprable %s: %s>' % (type(v).__name__, type(e).__name__)
 
 
 def dir_fname(key):
@@ -100,7 +107,7 @@ def dir_fname(key):
 
 
 class Runner(object):
-    def __init__(self, case, root, moncache=True, skip=(), monitors=True):
+    def __init__(self, case, root, moncache=True, skip=(), monitors=True, adopt=None):
         self.case = case
         self.cfg = cfg = case['cfg']
         self.root = root
@@ -122,12 +129,21 @@ class Runner(object):
         self.gen = 0             # generation (reopen count)
         self.arch_obj = gen.build_archive(klepto, self.backend, root)
         self.moncache = moncache and not self.backend.get('direct') and self.backend['kind'] != 'dict'
+        self.op_offset = 0
         self.f = None
         self.construct_error = None
-        try:
-            self._decorate()
-        except Exception as e:
-            self.construct_error = e
+        if adopt is not None:
+            # continue with an existing decorated function (the dill clone of C20)
+            self.f = adopt
+            self.probe = gen.Probe.adopt(case['sig'], self.rmode, adopt.__wrapped__)
+            c = adopt.__cache__()
+            a = getattr(c, 'archive', None)
+            self.arch_obj = a if (a is not None and a is not c) else (c if self.backend.get('direct') else None)
+        else:
+            try:
+                self._decorate()
+            except Exception as e:
+                self.construct_error = e
         # shadow
         self.tick = 0
         self.last_use = {}
@@ -270,7 +286,7 @@ class Runner(object):
                 self.obs.append(None)
                 continue
             self.step_i = i
-            random.seed(hash((self.case.get('seed', 0), i)) & 0xffffffff)
+            random.seed(hash((self.case.get('seed', 0), i + self.op_offset)) & 0xffffffff)
             try:
                 o = self.step(i, op)
             except Exception as e:  # harness-visible failure of a management op
@@ -319,6 +335,14 @@ class Runner(object):
         except Exception:
             return False, None
 
+    def _keys_of(self, calls):
+        out = []
+        for a, k in calls:
+            ok, key = self.keyof(dec(a), dec(k))
+            if ok:
+                out.append(key)
+        return out
+
     def step(self, i, op):
         kind = op[0]
         if kind == 'call':
@@ -327,10 +351,10 @@ class Runner(object):
         outcome = None
         f = self.f
         if kind == 'dump':
-            keys = [self.f.key(*dec(a), **dec(k)) for a, k in op[1]] if len(op) > 1 else []
+            keys = self._keys_of(op[1]) if len(op) > 1 else []
             f.dump(*keys)
         elif kind == 'load':
-            keys = [self.f.key(*dec(a), **dec(k)) for a, k in op[1]] if len(op) > 1 else []
+            keys = self._keys_of(op[1]) if len(op) > 1 else []
             f.load(*keys)
             # loaded entries have no call history
             for k in (keys or list(self.mem().keys())):
@@ -409,7 +433,7 @@ class Runner(object):
         args, kwds = dec(op[1]), dec(op[2])
         raise_name = op[3] if len(op) > 3 else None
         f = self.f
-        expect = self.probe.raw(*copy.deepcopy(args), **copy.deepcopy(kwds))
+        expect = self.probe.raw(*args, **kwds)
         ok, k = self.keyof(args, kwds)
         s0 = self.snapshot()
         mem0, arch0, att0 = s0['mem'], s0['arch'], s0['att']
@@ -443,7 +467,7 @@ class Runner(object):
         s1 = self.snapshot()
         self.note('calls')
         self.note('calls_' + cls)
-        outcome = ['ret', repr(result)] if raised is None else ['exc', type(raised).__name__]
+        outcome = ['ret', srepr(result)] if raised is None else ['exc', type(raised).__name__]
         o = self.summarize(op, outcome, s1)
         o['cls'] = cls
         if exc_obj is not None:
@@ -486,18 +510,18 @@ class Runner(object):
         if raised is not None:
             mech = []
             self.violation('C01', 'call-raised',
-                           '%s call %r/%r raised %s: %s' % (cls, args, kwds,
+                           '%s call %s/%s raised %s: %s' % (cls, srepr(args), srepr(kwds),
                                                             type(raised).__name__, str(raised)[:160]),
                            mech=mech, exc=type(raised).__name__, keys=[k])
             if cls == 'degraded':
                 self.violation('C16', 'safe-not-degraded',
-                               'safe decorator raised %s for un-keyable arguments %r/%r'
-                               % (type(raised).__name__, args, kwds), mech=mech)
+                               'safe decorator raised %s for un-keyable arguments %s/%s'
+                               % (type(raised).__name__, srepr(args), srepr(kwds)), mech=mech)
             return
         if not (result == expect):
             self.violation('C01', 'wrong-result',
-                           '%s call %r/%r returned %r, function returns %r'
-                           % (cls, args, kwds, result, expect),
+                           '%s call %s/%s returned %s, function returns %s'
+                           % (cls, srepr(args), srepr(kwds), srepr(result), srepr(expect)),
                            mech=self._mech_wrong_result(k, result, cls), keys=[k])
         # ---- C02 compute-once
         n_eval = s1['nlog'] - s0['nlog']
@@ -850,6 +874,13 @@ def gen_case(rng, focus, nops=None):
         c = gen.gen_call(rng, sig, universe)
         if c not in pool:
             pool.append(c)
+    if focus == 'C16' and safe and b['kind'] in ('dict', 'null', 'dict_archive') and rng.random() < 0.7:
+        # un-keyable arguments: the safe decorators must degrade to plain evaluation
+        hostile = [[1, 2], {'a': 1}, {'__s__': [1, 2]}, {'__h__': 'badrepr'}, {'__h__': 'badhash'},
+                   {'__h__': 'badreduce'}, {'__d__': [[1, 2]]}, [[1], [2]]]
+        for _ in range(rng.choice([1, 2, 3])):
+            c = gen.gen_call(rng, sig, [gen.Pre(h) for h in rng.sample(hostile, 3)] + universe[:2])
+            pool.append(c)
     n = nops or rng.choice([20, 30, 40, 60, 80])
     ops = gen_history(rng, focus, cfg, pool, n, ms)
     case = {'cfg': cfg, 'sig': sig, 'ops': ops, 'seed': rng.randrange(1 << 30), 'focus': focus}
@@ -934,6 +965,7 @@ NONTRIVIAL = {
     'C15': lambda r: r.cnt.get('calls_hit', 0) > 0 and r.cnt.get('calls_miss', 0) > 0,
     'C16': lambda r: r.cnt.get('c16_armed_raises', 0) > 0 and r.cnt.get('evictions', 0) > 0,
     'C18': lambda r: 'lookup_resident' in r.flags and 'lookup_absent' in r.flags,
+    'C20': lambda r: True,
 }
 RULES = {
     'C01': 'history has >=1 memory hit and >=1 call answered from the archive or recomputed after its key was evicted',
@@ -944,6 +976,7 @@ RULES = {
     'C15': 'history has >=1 hit and >=1 miss',
     'C16': 'history has >=1 armed exception that fired and >=1 eviction',
     'C18': 'history has >=1 lookup of a resident call and >=1 lookup of a non-resident call',
+    'C20': 'non-empty prefix before the dill round trip and a lock-step continuation in which an insertion evicted or purged',
 }
 
 
@@ -1046,3 +1079,171 @@ def replay(v, prop):
     case = v['case']
     r, viol = run_case(case, prop)
     return [x for x in viol if x['property'] == prop]
+
+
+# =========================================================================================
+# C20: a dill round trip of the decorated function resumes where the original was
+
+def gen_case_c20(rng):
+    for _ in range(200):
+        sig = rng.choice(gen.SIGS)
+        b = dict(rng.choice([x for x in gen.BACKENDS if x['kind'] in ('dict', 'null', 'dict_archive', 'file', 'dir')]))
+        if b['kind'] in ('dict_archive', 'file', 'dir') and rng.random() < 0.15:
+            b['direct'] = True
+        km = rng.choice(gen.keymap_cfgs())
+        if not gen.km_info_preserving(km, sig):
+            continue
+        kk = gen.key_kind(km)
+        if not gen.backend_accepts(b, kk, km) or (kk == 'raw' and not km['flat']):
+            continue
+        break
+    algo = rng.choice(ALGOS + list(BOUNDED))
+    cfg = {'algo': algo, 'safe': rng.random() < 0.4, 'maxsize': rng.choice([1, 2, 3, 5]),
+           'maxsize_positional': rng.random() < 0.5, 'purge': rng.random() < 0.35,
+           'keymap': km, 'backend': b}
+    if rng.random() < 0.3:
+        cfg['tol'] = rng.choice([0, 1]); cfg['deep'] = rng.random() < 0.5
+    if algo not in BOUNDED:
+        cfg['maxsize'] = 0 if algo == 'no' else None
+    universe = [u for u in gen.UNIVERSE if not (b['kind'] == 'dir' and u in ('a_b', '1'))]
+    ms = effective_maxsize(cfg) or 3
+    pool = []
+    while len(pool) < min(len(universe), ms + rng.choice([2, 3, 4])):
+        c = gen.gen_call(rng, sig, universe)
+        if c not in pool:
+            pool.append(c)
+    pre = gen_history(rng, 'C20', cfg, pool, rng.choice([0, 3, 8, 15, 30]), ms)
+    if b['kind'] not in ('dict', 'null') and not b.get('direct') and rng.random() < 0.4:
+        pre.insert(rng.randrange(len(pre) + 1), ['dump'])
+    cont = gen_history(rng, 'C20', cfg, pool, max(12, 4 * ms), ms)
+    return {'cfg': cfg, 'sig': sig, 'ops': pre, 'cont': cont, 'seed': rng.randrange(1 << 30),
+            'focus': 'C20', 'fresh': [enc(x) for x in gen.gen_call(rng, sig, ['zz', 77, 'fresh'])]}
+
+
+def _copy_store(src, dst):
+    import shutil
+    if os.path.isdir(dst):
+        shutil.rmtree(dst)
+    shutil.copytree(src, dst)
+
+
+def run_case_c20(case):
+    import dill
+    viol = []
+    cnt = {}
+
+    def bad(kind, msg):
+        viol.append({'property': 'C20', 'kind': kind, 'msg': msg[:600], 'mech': [], 'case': case})
+    with Scratch('c20') as root:
+        a = os.path.join(root, 'a')
+        os.makedirs(a)
+        r = Runner(case, a, moncache=False, monitors=False)
+        r.run()
+        if r.construct_error is not None or any(o and o.get('abort') for o in r.obs):
+            return r, viol, cnt
+        f = r.f
+        try:
+            g = dill.loads(dill.dumps(f))
+        except Exception as e:
+            bad('not-picklable', 'dill round trip of the decorated function failed: %s: %s'
+                % (type(e).__name__, str(e)[:200]))
+            return r, viol, cnt
+        cnt['c20_roundtrips'] = 1
+        if g is f or g.__wrapped__ is f.__wrapped__:
+            cnt['c20_by_reference'] = 1   # would make the comparison vacuous
+            return r, viol, cnt
+        mf, mg = gen.contents(f.__cache__()), gen.contents(g.__cache__())
+        if mf != mg or [skey(k) for k in mf] != [skey(k) for k in mg]:
+            bad('clone-cache-differs', 'clone memory %r != original %r' % (sorted(map(skey, mg)), sorted(map(skey, mf))))
+        if tuple(f.info()) != tuple(g.info()):
+            bad('clone-info-differs', 'clone info %r != original %r' % (tuple(g.info()), tuple(f.info())))
+        if repr(f.__map__()) != repr(g.__map__()) or f.__mask__() != g.__mask__():
+            bad('clone-config-differs', 'clone keymap/mask %r/%r != %r/%r'
+                % (g.__map__(), g.__mask__(), f.__map__(), f.__mask__()))
+        if bool(f.archived()) != bool(g.archived()):
+            bad('clone-config-differs', 'clone archived()=%r, original %r' % (g.archived(), f.archived()))
+        cont = dict(case); cont['ops'] = case['cont']
+        persistent = gen.persistent(case['cfg']['backend'])
+        if persistent:
+            _copy_store(a, os.path.join(root, 'snap'))
+        rf = Runner(cont, a, moncache=False, monitors=False, adopt=f)
+        rf.op_offset = 1000
+        rf.run()
+        if persistent:
+            # both continue from the same stored state: a persistent archive is shared storage
+            _copy_store(os.path.join(root, 'snap'), a)
+        rg = Runner(cont, a, moncache=False, monitors=False, adopt=g)
+        rg.op_offset = 1000
+        rg.run()
+        cnt['c20_lockstep_steps'] = len(rf.obs)
+        v2 = []
+        compare_obs(rf.obs, rg.obs, set(), 'clone-diverged', 'C20', case, v2)
+        viol.extend(v2)
+        ev = sum(1 for o in rf.obs if o and o.get('op') == 'call') and (rf.obs[-1]['info'][1] if rf.obs else 0)
+        if any(o and len(o.get('mem', [])) for o in rf.obs) and case['cfg']['algo'] in BOUNDED:
+            pass
+        # independence of the in-memory state
+        fa, fk = dec(case['fresh'][0]), dec(case['fresh'][1])
+        mg0, ig0 = gen.contents(g.__cache__()), tuple(g.info())
+        try:
+            f.clear()
+            f(*fa, **fk)
+        except Exception:
+            pass
+        if not case['cfg']['backend'].get('direct'):
+            if gen.contents(g.__cache__()) != mg0 or tuple(g.info()) != ig0:
+                bad('clone-not-independent', 'clearing/calling the original changed the clone: %r -> %r, info %r -> %r'
+                    % (sorted(map(skey, mg0)), sorted(map(skey, gen.contents(g.__cache__()))), ig0, tuple(g.info())))
+            cnt['c20_independence_checks'] = 1
+        r.obs_cont = rf.obs
+        return r, viol, cnt
+
+
+def run_shard_c20(prop, tier, seed, shard, nshards, opts):
+    n_total = opts.get('cases', 1500)
+    budget = opts.get('budget_s', 60)
+    t0 = time.time()
+    res = {'cases': 0, 'digests': [], 'counters': {}, 'samples': [], 'violations': [],
+           'cells': {}, 'anchors': {}, 'notes': []}
+    i = shard
+    while i < n_total and time.time() - t0 < budget:
+        rng = gen.make_rng('cachemon', 'C20', seed, i)
+        case = gen_case_c20(rng)
+        r, viol, cnt = run_case_c20(case)
+        res['cases'] += 1
+        for k, v in cnt.items():
+            res['counters'][k] = res['counters'].get(k, 0) + v
+        cell = '%s%s/%s' % ('safe.' if case['cfg']['safe'] else '', case['cfg']['algo'],
+                            gen.backend_name(case['cfg']['backend']))
+        res['cells'][cell] = res['cells'].get(cell, 0) + 1
+        oc = getattr(r, 'obs_cont', None) or []
+        sizes = [len(o['mem']) for o in oc if o]
+        evicted = any(sizes[j] <= sizes[j - 1] and oc[j].get('cls') in ('miss', 'load')
+                      for j in range(1, len(sizes)) if oc[j] and oc[j].get('op') == 'call')
+        if cnt.get('c20_roundtrips') and evicted and len(case['ops']) > 0:
+            res['counters']['c20_continuations_with_eviction'] = res['counters'].get('c20_continuations_with_eviction', 0) + 1
+            res['digests'].append(digest([case['cfg'], case['sig'], case['ops'], case['cont']]))
+            if len(res['samples']) < 2:
+                res['samples'].append({'cfg': case['cfg'], 'sig': case['sig'], 'prefix': case['ops'][:8],
+                                       'continuation': case['cont'][:8]})
+        res['violations'].extend(viol[:5])
+        i += nshards
+    return res
+
+
+_run_shard_generic = run_shard
+
+
+def run_shard(prop, tier, seed, shard, nshards, opts):
+    if prop == 'C20':
+        return run_shard_c20(prop, tier, seed, shard, nshards, opts)
+    return _run_shard_generic(prop, tier, seed, shard, nshards, opts)
+
+
+_replay_generic = replay
+
+
+def replay(v, prop):
+    if prop == 'C20':
+        return run_case_c20(v['case'])[1]
+    return _replay_generic(v, prop)
